@@ -48,7 +48,12 @@ Between(op, res, x) ==
                           /\ (x.lo[1] = x.hi[1] => TripleLe(<<0, x.lo[2], x.lo[3]>>, <<0, t.sod, t.ns>>)
                                                    /\ TripleLe(<<0, t.sod, t.ns>>, <<0, x.hi[2], x.hi[3]>>))
 
-Matches(res, al) == \/ AnyOutcome \in al
+\* "loc": the returned value carries Offset::Local (a kind of offset, not a different reading: its "off" is what
+\* Local resolves to).  It is judged by LocOK below and is not part of the outcome compared with Allowed.
+IsLocal(r) == "loc" \in DOMAIN r /\ r.loc
+Strip(r) == [f \in (DOMAIN r) \ {"loc"} |-> r[f]]
+Matches(res0, al) == LET res == Strip(res0) IN
+                    \/ AnyOutcome \in al
                     \/ (res.k = "panic" /\ Panic \in al)
                     \/ \E x \in al : x.k = res.k /\ x = res
 
@@ -56,9 +61,21 @@ HasDst(e) == "dst" \in DOMAIN e
 TypeOfResult(e) == IF e.op = "init" THEN e.val.ty ELSE ResultType(e.op)
 
 \* the register file after the event: a returned value is stored, anything else changes nothing
+WithLoc(v, res) == IF IsLocal(res) THEN [f \in (DOMAIN v) \cup {"loc"} |-> IF f = "loc" THEN TRUE ELSE v[f]] ELSE v
 After(e) == IF HasDst(e) /\ e.res.k = "ok" /\ TypeOfResult(e) # "none"
-            THEN [reg EXCEPT ![e.dst] = ValueOfOutcome(TypeOfResult(e), e.res)]
+            THEN [reg EXCEPT ![e.dst] = WithLoc(ValueOfOutcome(TypeOfResult(e), Strip(e.res)), e.res)]
             ELSE reg
+
+\* "offset unchanged" (C04, C05, C08, C09): a call that keeps the receiver's offset keeps its kind too; every
+\* other call that returns a DateTime or a Time returns one with a fixed offset
+KeepsOffset == {"dt_add", "dt_sub", "dt_add_dur", "dt_sub_dur", "dt_add_time", "dt_sub_time", "dt_add_months", "dt_sub_months",
+                "dt_add_years", "dt_sub_years", "dt_set", "dt_clear", "dt_set_time", "dt_copy", "dt_from_time", "time_from_dt",
+                "time_add", "time_sub", "time_add_dur", "time_sub_dur", "time_add_time", "time_sub_time", "time_set", "time_clear",
+                "time_copy"}
+LocOK(e) == IF e.res.k # "ok" \/ TypeOfResult(e) \notin {"dt", "time"} THEN TRUE
+            ELSE IF e.op = "init" THEN IsLocal(e.res) = IsLocal(e.val)
+            ELSE IF e.op \in KeepsOffset THEN (reg[e.a] = NoValue \/ IsLocal(e.res) = IsLocal(reg[e.a]))
+            ELSE ~IsLocal(e.res)
 
 Init == reg = [r \in RegNames |-> NoValue] /\ l = 1 /\ bad = <<>>
 
@@ -67,13 +84,13 @@ Explained(e) == IF e.op \in {"dt_now", "date_now", "time_now"}
                 ELSE Matches(e.res, Expected(e))
 
 StepOk == /\ l <= Len(Rec)
-          /\ Explained(Rec[l])
+          /\ Explained(Rec[l]) /\ LocOK(Rec[l])
           /\ reg' = After(Rec[l])
           /\ bad' = bad
           /\ l' = l + 1
 
 Diverge == /\ l <= Len(Rec)
-           /\ ~Explained(Rec[l])
+           /\ ~(Explained(Rec[l]) /\ LocOK(Rec[l]))
            /\ bad' = Append(bad, [i |-> Rec[l].i, event |-> Rec[l], expected |-> SetToSeq(Expected(Rec[l]))])
            /\ reg' = After(Rec[l])          \* resynchronise to what the implementation reported
            /\ l' = l + 1
